@@ -26,7 +26,7 @@ META = {
 LEVEL = META['level']
 RULE = ('a case = one (machine, encoding, tail, limit value, limit form) run; distinct by that tuple; non-trivial = the limit is smaller than encoding+tail or an inner length field was perturbed')
 ASSUMPTIONS = ['the limit is imposed by an enclosing dfa (limit=...) around the machine under test, the way CPF items and CIP command parsers are limited in the library']
-REQUIRED = ['runs', 'outcome:success', 'outcome:nonterminal', 'outcome:limit-assertion', 'form:int', 'form:path', 'form:callable', 'limit:0', 'limit:cuts-element', 'limit:exact', 'limit:beyond',
+REQUIRED = ['counted-list:runs', 'runs', 'outcome:success', 'outcome:nonterminal', 'outcome:limit-assertion', 'form:int', 'form:path', 'form:callable', 'limit:0', 'limit:cuts-element', 'limit:exact', 'limit:beyond',
             'monitor:conservation', 'monitor:invariant-evaluations', 'monitor:limit-respected', 'inner:shorter', 'inner:longer', 'repeat:exact', 'repeat:under-limit', 'input:chained-blocks', 'limit:nested-zero', 'machines:distinct>=25']
 TIMEOUT = {'quick': 300, 'thorough': 1800}
 SOFT = {'quick': 30, 'thorough': 420}
@@ -243,6 +243,54 @@ def judge(ctx, env, name, factory, enc, tail, limit, form, perturbed=None, inner
     return r
 
 
+def counted_lists(ctx, env, rng, rounds):
+    """A count field followed by that many elements, parsed by a repeating sub-grammar that is *left by an onward transition* (not the
+    last state of its grammar): under every limit 0..L+1 the parse either fails or holds exactly `count` elements -- a limit that
+    ends on an element boundary must not turn into "fewer elements than the count says"."""
+    cpppo, parser, rc = env.cpppo, env.parser, env.rc
+    # (a) the library's own: Get Attribute List request
+    for n in (2, 3, 5):
+        attrs = [rng.randrange(1, 0x400) for _ in range(n)]
+        enc = rc.enc_request({'path': {'segment': [{'class': 1}, {'instance': 1}]}, 'get_attribute_list': attrs})
+        tail = rng.choice([b'', b'\x07\x00', b'\x01\x00\x02\x00\x03'])
+        L = len(enc)
+        for limit in list(range(0, L + 2)) + [None]:
+            form = ('int', 'path', 'callable')[(limit or 0) % 3]
+            r = judge(ctx, env, 'object_request:get_attribute_list*%d' % n, None, enc, tail, limit, form,
+                      cuts=[rng.randrange(1, L)] if (limit or 0) % 4 == 3 else None)
+            ctx.count('counted-list:runs')
+            if isinstance(r, dict) and r['outcome'] == 'success':
+                got = r['data'].get('o.get_attribute_list')
+                if got != attrs:
+                    ctx.violation('repeat-count-not-exact', 'Get Attribute List request declaring %d attributes, under a limit of %r of its %d bytes, completed successfully with %r' % (
+                        n, limit, L, got), {'machine': 'object_request', 'encoding': enc, 'limit': limit, 'form': form})
+                    return
+    # (b) the same shape from the framework's parts: count, repeating two-state element, onward transition to a final state
+    for n in (2, 3, 4):
+        def factory(terminal=True, limit=None, n=n):
+            cnt = parser.USINT(context='cnt')
+            el = parser.UINT('el', context='el')
+            el[None] = cpppo.state('el-done', terminal=True)
+            items = cpppo.dfa('items', initial=el, repeat='.cnt')
+            cnt[True] = items
+            items[None] = parser.octets_noop('done', terminal=True)
+            kw = {} if limit is None else {'limit': limit}
+            return cpppo.dfa('counted', context='c', initial=cnt, terminal=terminal, **kw)
+        enc = bytes([n]) + bytes(rng.randrange(256) for _ in range(2 * n))
+        tail = rng.choice([b'', b'\xaa', b'\x01\x02\x03\x04'])
+        L = len(enc)
+        for limit in list(range(0, L + 2)) + [None]:
+            for inner in (None, limit):
+                if inner is not None and limit is None:
+                    continue
+                r = judge(ctx, env, 'counted*%d' % n, factory, enc, tail, None if inner is not None else limit, 'int', inner_limit=inner)
+                ctx.count('counted-list:runs')
+                if isinstance(r, dict) and r['outcome'] == 'success' and r['sent'] != L:
+                    ctx.violation('repeat-count-not-exact', 'count %d followed by repeating two-state elements, limit %r of %d bytes (%s): completed successfully after %d symbols' % (
+                        n, limit, L, 'own limit' if inner is not None else 'enclosing limit', r['sent']), {'machine': 'counted', 'encoding': enc, 'limit': limit, 'inner': inner is not None})
+                    return
+
+
 def perturbations(name, enc):
     """(label, altered encoding, expectation) for machines whose first bytes are a length/count field"""
     out = []
@@ -338,6 +386,7 @@ def _run(ctx):
                     ctx.violation('inner-length-not-honoured', '%s with shortened length field consumed %d symbols, the field allows exactly %d' % (name, r['sent'], expect[1]), wit)
                 elif expect[0] in ('within', 'fails-or-within') and ok and r['sent'] > expect[1]:
                     ctx.violation('inner-length-not-honoured', '%s consumed %d symbols, its (perturbed) length field allows %d' % (name, r['sent'], expect[1]), wit)
+        counted_lists(ctx, env, rng, rounds)
         # repeat counts: octets(repeat=N) and a dfa of UINTs with repeat from a data path
         for n in (0, 1, 2, 7):
             src_bytes = bytes(range(1, 41))
